@@ -14,20 +14,26 @@ Record cenv := {
   c_file : option N;            (* the message's descriptor *)
   c_started : bool;             (* the local `started` *)
   c_next_avail : N;             (* the local `next_avail` *)
+  c_num : N;                    (* the message's numeric argument (features) *)
+  c_evidx : bool;               (* the local `event_idx` *)
   c_res : option dres }.        (* Some: the handler has returned *)
 
 Definition with_s (e : cenv) (s : dstate) (r : ring) : cenv :=
   {| c_s := s; c_q := c_q e; c_r := r; c_enable := c_enable e; c_file := c_file e; c_started := c_started e;
-     c_next_avail := c_next_avail e; c_res := c_res e |}.
+     c_next_avail := c_next_avail e; c_num := c_num e; c_evidx := c_evidx e; c_res := c_res e |}.
 Definition with_res (e : cenv) (d : dres) : cenv :=
   {| c_s := c_s e; c_q := c_q e; c_r := c_r e; c_enable := c_enable e; c_file := c_file e; c_started := c_started e;
-     c_next_avail := c_next_avail e; c_res := Some d |}.
+     c_next_avail := c_next_avail e; c_num := c_num e; c_evidx := c_evidx e; c_res := Some d |}.
 Definition with_locals (e : cenv) (started : bool) (na : N) : cenv :=
   {| c_s := c_s e; c_q := c_q e; c_r := c_r e; c_enable := c_enable e; c_file := c_file e; c_started := started;
-     c_next_avail := na; c_res := c_res e |}.
+     c_next_avail := na; c_num := c_num e; c_evidx := c_evidx e; c_res := c_res e |}.
 Definition at_ring (e : cenv) (q : N) (r : ring) : cenv :=
   {| c_s := c_s e; c_q := q; c_r := r; c_enable := c_enable e; c_file := c_file e; c_started := c_started e;
-     c_next_avail := c_next_avail e; c_res := c_res e |}.
+     c_next_avail := c_next_avail e; c_num := c_num e; c_evidx := c_evidx e; c_res := c_res e |}.
+
+Definition with_evidx (e : cenv) (b : bool) : cenv :=
+  {| c_s := c_s e; c_q := c_q e; c_r := c_r e; c_enable := c_enable e; c_file := c_file e; c_started := c_started e;
+     c_next_avail := c_next_avail e; c_num := c_num e; c_evidx := b; c_res := c_res e |}.
 
 Definition bval_of (e : cenv) (v : bval) : bool := match v with BParam => c_enable e | BTrue => true | BFalse => false end.
 
@@ -52,6 +58,7 @@ Definition cond_of (e : cenv) (c : ccond) : bool :=
   match c with
   | CStarted => c_started e
   | CNeedsInit => ctl_needs_init (r_ready (c_r e)) (o_is_some (r_kick (c_r e)))
+  | CNoProtocolFeatures => negb (hasd (d_acked (c_s e)) PFB)
   end.
 
 (* for (index, vring) in self.vrings.iter().enumerate() { body } *)
@@ -106,6 +113,24 @@ Section Run.
         | OClearAckedFeatures =>
             with_s e (set_misc s (d_owned s) 0 (d_acked_proto s) (d_rq_acked s) (d_rq_acked_proto s) (d_fe_avf s) (d_fe_apf s) (d_fe_maxq s)) r
         | OBackendReset => e
+        | OCheckOffered => if negb (N.land (c_num e) (lnot 64 (d_features s)) =? 0) then with_res e DErr else e
+        | OSetAckedFeatures =>
+            with_s e (set_misc s (d_owned s) (c_num e) (d_acked_proto s) (d_rq_acked s) (d_rq_acked_proto s) (d_fe_avf s) (d_fe_apf s) (d_fe_maxq s)) r
+        | OMarkFeaturesAcked => e                  (* features_acked is not part of the model's state *)
+        | OLetEventIdx => with_evidx e (hasd (d_acked s) (2 ^ 29))      (* VIRTIO_RING_F_EVENT_IDX *)
+        | OSetEventIdxAll =>
+            with_s e (set_rings s (map (fun r0 => {| r_ready := r_ready r0; r_enabled := r_enabled r0; r_kick := r_kick r0; r_call := r_call r0;
+                                                     r_err := r_err r0; r_size := r_size r0; r_next_avail := r_next_avail r0;
+                                                     r_next_used := r_next_used r0; r_desc := r_desc r0; r_avail := r_avail r0;
+                                                     r_used := r_used r0; r_event_idx := c_evidx e |}) (d_rings s))) r
+        | OBackendEventIdx =>
+            let m := d_mem s in
+            with_s e (set_mem s {| m_maps := m_maps m; m_regs := m_regs m; m_fsizes := m_fsizes m; m_fbytes := m_fbytes m; m_upd := m_upd m;
+                                   m_ackf := m_ackf m; m_evlog := m_evlog m ++ [if c_evidx e then 1 else 0]; m_log := m_log m; m_beq := m_beq m |}) r
+        | OBackendAckedFeatures =>
+            let m := d_mem s in
+            with_s e (set_mem s {| m_maps := m_maps m; m_regs := m_regs m; m_fsizes := m_fsizes m; m_fbytes := m_fbytes m; m_upd := m_upd m;
+                                   m_ackf := m_ackf m ++ [d_acked s]; m_evlog := m_evlog m; m_log := m_log m; m_beq := m_beq m |}) r
         | ORetOk => with_res e (DOk [])
         | ORetState => with_res e (DOk [c_next_avail e])
         end
@@ -119,8 +144,10 @@ End Run.
 Definition run_init (e : cenv) : cenv := run_list (fun e => e) ctl_initialize_vring e.
 
 Definition ring_dummy : ring := ring0 0.
-Definition run_handler (prog : list cop) (s : dstate) (q : N) (enable : bool) (file : option N) : dstate * dres :=
+Definition run_handler_num (prog : list cop) (s : dstate) (q : N) (enable : bool) (file : option N) (num : N) : dstate * dres :=
   let e := run_list run_init prog
                     {| c_s := s; c_q := q; c_r := ring_dummy; c_enable := enable; c_file := file; c_started := false;
-                       c_next_avail := 0; c_res := None |} in
+                       c_next_avail := 0; c_num := num; c_evidx := false; c_res := None |} in
   (c_s e, match c_res e with Some d => d | None => DErr end).
+Definition run_handler (prog : list cop) (s : dstate) (q : N) (enable : bool) (file : option N) : dstate * dres :=
+  run_handler_num prog s q enable file 0.
